@@ -148,6 +148,28 @@ def it_sparse(c):
     return {'outs': outs, 'oracle': orc, 'assume': assume}
 
 
+def it_sparse_shared(c):
+    """tables in which the same wire object sits at several indices (the mux tree may share or skip sub-muxes)"""
+    sw, w, pat = c['sw'], c['w'], c['pattern']
+    s = I(sw, 's')
+    pool = {ch: I(w, 'p_%s' % ch) for ch in sorted(set(pat) - {'-'})}
+    vals = {i: pool[ch] for i, ch in enumerate(pat) if ch != '-'}
+    form = c.get('form', 'sparse')
+    if form == 'sparse':
+        r = muxes.sparse_mux(s, vals)
+    else:
+        r = pyrtl.mux(s, *[vals[i] for i in range(1 << sw)])
+
+    def orc(ins):
+        return {'r': _sel_chain(ins['s'], {i: ins['p_%s' % ch] for i, ch in enumerate(pat) if ch != '-'}, 0)}
+
+    def assume(ins):
+        from ..sym import to_cond
+        import z3
+        return [z3.Or(*[to_cond(ins['s'] == i) for i, ch in enumerate(pat) if ch != '-'])]
+    return {'outs': {'r': r}, 'oracle': orc, 'assume': assume}
+
+
 def it_prio(c):
     n, w = c['n'], c['w']
     sels = [I(1, 's%d' % i) for i in range(n)]
@@ -480,7 +502,7 @@ def it_struct(c):
 
 from .c06 import it_barrel  # noqa: E402  (barrel_shifter is named by both properties)
 
-ITEMS = {'barrel': it_barrel, 'mux': it_mux, 'mux_kw': it_mux_kw, 'enum_mux': it_enum_mux, 'sparse': it_sparse, 'prio': it_prio, 'multisel': it_multisel,
+ITEMS = {'barrel': it_barrel, 'mux': it_mux, 'mux_kw': it_mux_kw, 'sparse_shared': it_sparse_shared, 'enum_mux': it_enum_mux, 'sparse': it_sparse, 'prio': it_prio, 'multisel': it_multisel,
          'demux': it_demux, 'bitfield': it_bitfield, 'bitfield_set': it_bitfield_set, 'bitfield_trunc': it_bitfield_trunc, 'bitfield_int': it_bitfield_int,
          'pattern': it_pattern, 'chop': it_chop, 'partition': it_partition, 'struct': it_struct}
 
@@ -521,6 +543,19 @@ def cases(tier, seed):
         out.append({'item': 'multisel', 'sw': 3 if max(opts) > 3 else 2, 'w': 2, 'opts': opts, 'default': False})
         for dpos in range(len(opts) + 1):
             out.append({'item': 'multisel', 'sw': 3 if max(opts) > 3 else 2, 'w': 2, 'opts': opts, 'default': True, 'dpos': dpos})
+    # every table over two shared wires for a 3-bit select; samples with three wires, holes and a 4-bit select
+    for pat in itertools.product('ab', repeat=8):
+        out.append({'item': 'sparse_shared', 'sw': 3, 'w': 2, 'pattern': ''.join(pat)})
+    import random
+    rng_ = random.Random(seed + 14)
+    for _ in range(60 if tier == 'quick' else 1500):
+        sw_ = rng_.choice([2, 3, 4])
+        pat = ''.join(rng_.choice('abc-' if _ % 2 else 'abc') for _i in range(1 << sw_))
+        if set(pat) == {'-'}:
+            continue
+        out.append({'item': 'sparse_shared', 'sw': sw_, 'w': 2, 'pattern': pat})
+        if '-' not in pat:
+            out.append({'item': 'sparse_shared', 'sw': sw_, 'w': 2, 'pattern': pat, 'form': 'mux'})
     for sw in (1, 2, 3, 4):
         out.append({'item': 'demux', 'sw': sw})
     for w in ((3, 4, 5) if tier == 'quick' else (1, 2, 3, 4, 5, 6)):
